@@ -159,7 +159,13 @@ func (g *Gen) genMisuse(t *rapid.T) *Op {
 		}
 	}
 	alive := m.AliveList()
-	class := rapid.SampledFrom([]string{"stale", "stale", "stale", "dup-add", "remove-missing", "empty", "omitted-target", "dead-target", "batch", "dead-target-query"}).Draw(t, "misuseClass")
+	class := rapid.SampledFrom([]string{"stale", "stale", "stale", "dup-add", "remove-missing", "empty", "omitted-target", "dead-target", "batch", "dead-target-query", "bad-observer"}).Draw(t, "misuseClass")
+	if class == "bad-observer" {
+		// a relation observer that observes a non-relation component: Register panics and nothing is registered
+		ev := rapid.SampledFrom([]int{EvAddRels, EvRemoveRels}).Draw(t, "relEvent")
+		c := rapid.SampledFrom(listOf(0xffff&^comps.RelMask)).Draw(t, "nonRelation")
+		return &Op{K: "obsBad", Mode: ev, Comps: []int{c}, Sub: class}
+	}
 	if class == "dead-target-query" {
 		// a typed filter with a free relation component, queried or used for a batch with a removed entity as target
 		var l []int
@@ -539,4 +545,16 @@ func (it *Interp) opQueryDeadTarget(op *Op) {
 			}
 		}
 	}
+}
+
+// opObsBad: registering an OnAddRelations / OnRemoveRelations observer for a non-relation component is rejected; the
+// world has as many observers afterwards as before, and the rejected observer never fires.
+func (it *Interp) opObsBad(op *Op) {
+	it.run(op, false, func(b *Backend) {
+		o := ecs.Observe(b.evT[op.Mode]).For(compsOf(op.Comps)...).Do(func(e ecs.Entity) {
+			fail("events|obsBad|fired", "%s: an observer whose registration was rejected fired for %v", b.Name, e)
+		})
+		o.Register(b.W)
+	})
+	it.checkObserverCount()
 }
